@@ -3,7 +3,7 @@
 From Coq Require String.
 Import (notations) String.
 From Coq Require Import Permutation.
-From Tabula Require Import model.C17_Xlsx model.C06_Syntax proofs.C06_Lexical proofs.C06_Structure.
+From Tabula Require Import model.C17_Xlsx model.C06_Syntax proofs.C06_Lexical proofs.C06_Structure proofs.C06_Stream proofs.C06_Agree.
 
 Open Scope N_scope.
 
@@ -31,6 +31,30 @@ Theorem C06_integers_and_references_in_an_array : forall (a b c n g : bytes) (re
 Proof. exact integers_and_references_in_an_array. Qed.
 Print Assumptions C06_integers_and_references_in_an_array.
 
+Theorem C06_operand_reads_back : forall (w : cw) (fuel : nat), (cdepth w <= fuel)%nat -> operand_ok fuel w.
+Proof. exact operand_reads_back. Qed.
+Print Assumptions C06_operand_reads_back.
+
+Theorem C06_content_stream_reads_back : forall (g0 : list gitem) (p : list (item * gap)), Forall gitem_ok g0 -> prog_ok p -> cs_parse_all (gap_text g0 ++ ptext p) = Some (group p []).
+Proof. exact content_stream_reads_back. Qed.
+Print Assumptions C06_content_stream_reads_back.
+
+Theorem C06_statements_read_back : forall stmts : list (list cw * bytes), Forall stmt_ok stmts -> cs_parse_all (ptext (concat (map stmt_items stmts))) = Some (map (fun s : list cw * bytes => (snd s, map cvalue (fst s))) stmts).
+Proof. exact statements_read_back. Qed.
+Print Assumptions C06_statements_read_back.
+
+Theorem C06_both_parsers_read_the_same_value : forall (w : cw) (g : list gitem), Forall gitem_ok g -> cok w (hd_error (gap_text g)) -> core_parse (ctext w ++ gap_text g) = POk (cvalue w) [TEOF] /\ cs_operand (S (length (ctext w ++ gap_text g))) (ctext w ++ gap_text g) = COk (cvalue w) (gap_text g).
+Proof. exact both_parsers_read_the_same_value. Qed.
+Print Assumptions C06_both_parsers_read_the_same_value.
+
+Theorem C06_both_parsers_agree_at_the_end_of_the_data : forall w : cw, cok w None -> core_parse (ctext w) = POk (cvalue w) [TEOF] /\ cs_operand (S (length (ctext w))) (ctext w) = COk (cvalue w) [].
+Proof. exact both_parsers_agree_at_the_end_of_the_data. Qed.
+Print Assumptions C06_both_parsers_agree_at_the_end_of_the_data.
+
 (* non-vacuity *)
 Check lexical_examples.
 Check tree_example.
+Check demo_prog_meets_the_hypotheses.
+Check demo_prog_parses.
+Check demo_operand_ok.
+Check demo_operand_value.
